@@ -9,7 +9,8 @@
 (***************************************************************************)
 EXTENDS D42Registry
 
-CONSTANT MaxSteps
+CONSTANTS MaxSteps,
+          ActScope      \* "all" | "formatter"
 
 VARIABLES reg, hist
 
@@ -21,7 +22,7 @@ Do(act) == /\ Len(hist) < MaxSteps
            /\ reg' = Step(reg, act).st
            /\ hist' = Append(hist, act)
 
-Next == \E act \in Acts : Do(act)
+Next == \E act \in ActsFor(ActScope) : Do(act)
 
 Last == hist'[Len(hist')]
 
